@@ -43,7 +43,7 @@ def cases(tier, seed):
     if tier == "quick":
         ids = ids[:60]
     out = [{"id": f"scen:{i}", "kind": "scen", "idx": i} for i in ids]
-    out += [{"id": f"multi:{i}", "kind": "multi", "idx": i} for i in ids[: max(12, len(ids) // 4)]]
+    out += [{"id": f"multi:{i}", "kind": "multi", "idx": i} for i in ids[: max(24, len(ids) // 4)]]
     out += [{"id": f"usage:{i}", "kind": "usage", "u": i} for i in range(len(USAGE))]
     return out
 
@@ -98,13 +98,16 @@ def run_multi(case):
         from vfw.gen.corpus import rng as _rng
 
         r = _rng("c22-multi", case["idx"])
-        mode = r.choice(["noqa", "ignore", "warnings"])
+        mode = r.choice(["noqa", "ignore", "warnings", "warnings_all"])
         core = {"dialect": "ansi", "rules": r.choice(["LT01,CP01", "LT01,CP01,LT12", "core"]), "templater": "raw"}
         first = "select a from t where;" + (" -- noqa: PRS" if mode == "noqa" else "") + "\n"
         if mode == "ignore":
             core["ignore"] = "parsing"
         if mode == "warnings":
             core["warnings"] = "PRS"
+        if mode == "warnings_all":  # every violation of the run is a warning: the run must exit 0, serial and multi-process
+            core["warnings"] = "PRS,LT01,CP01,LT12,LT02,AL01,CP02,RF02"
+            core["rules"] = "LT01,CP01,LT12"
         base = {"sql": r.choice(["SELECT a,b from t;\n", "select  a from t;\n", "select a from t;\n"]), "config": {"core": core}, "nested": None, "subdir": "", "tags": ["fixable"], "inline": False}
         extra = {"a_first.sql": first}
         if r.random() < 0.5:
@@ -123,8 +126,12 @@ def run_multi(case):
             l, f = expected_exits(m, "templating" in (base["config"]["core"].get("ignore") or ""))
             exp_l, exp_f = max(exp_l, l), max(exp_f, f)
         rc_l = pj.cli(["lint", ".", "--nocolor"])[0]
+        # same run through the multi-process runner (violations cross a process boundary before they are counted)
+        rc_lp = pj.cli(["lint", ".", "--nocolor", "--processes", "2"])[0]
         rc_f = pj.cli(["fix", ".", "--nocolor"])[0]
-        counters = {"exit_codes_compared": 2, "multi_file_runs": 1}
+        counters = {"exit_codes_compared": 3, "multi_file_runs": 1}
+        if rc_lp != exp_l:
+            fails.append({"sig": f"multi_lint_processes2_exit_{rc_lp}_expected_{exp_l}", "detail": {"models": models, "files": {pj.rel: base["sql"], **extra}, "config": base["config"], "serial_exit": rc_l}})
         if rc_l != exp_l:
             fails.append({"sig": f"multi_lint_exit_{rc_l}_expected_{exp_l}", "detail": {"models": models, "files": {pj.rel: base["sql"], **extra}, "config": base["config"]}})
         if rc_f != exp_f:
